@@ -5,7 +5,7 @@ each with its own closure: the batch member's operator) run in ONE loop, as the 
 The columns share
   * the iteration counter `k`, the bound `num_iter` and therefore the returned `count`;
   * the guard of the first step:     `num_iter > 1 and torch.sum(beta_0.abs() > 1e-6) > 0`        -- ANY column
-  * the test of the extra passes:    `if not torch.sum(inner_products > tol)`                      -- NO entry of ANY column
+  * the test of the extra passes:    `if not torch.sum(inner_products.abs() > tol)`                      -- NO entry of ANY column
     (as soon as one column asks for another pass, the pass is run on ALL columns)
   * the break test:                  `torch.sum(beta_curr.abs() > 1e-6) == 0 or not could_reorthogonalize`
     (break only when ALL columns are at or below the threshold).
@@ -41,7 +41,7 @@ def colPre [Add α] [Sub α] [Mul α] [Div α] [Zero α] (ops : NumOps α) (amul
   let nrm := norm ops r
   (a, nrm, vdiv r nrm)
 
-/-- `for _ in range(fuel): if not torch.sum(inner_products > tol): could = True; break; <pass on every column>`
+/-- `for _ in range(fuel): if not torch.sum(inner_products.abs() > tol): could = True; break; <pass on every column>`
 with `inner_products` over ALL columns; returns (the `r_vec` of every column, could_reorthogonalize, passes run). -/
 def extraPassesM [Add α] [Sub α] [Mul α] [Div α] [Zero α] (ops : NumOps α) (tol : α) (m : Nat)
     (qs : Vector (Fam (Vec α n)) C) : (fuel : Nat) → Vector (Vec α n) C → Vector (Vec α n) C × Bool × Nat
